@@ -73,6 +73,7 @@ def render(s, variant, placement):
         # sibling closure, so resolving it in the wrong namespace gives another value
         t = tup if names else "()"
         body = "def f(%s):\n    return %s" % (plist.replace("dflt(", "dflt(scoped, "), t)
+    elif variant == "defclosure":
         # every parameter is captured by an inner function and by an inner lambda
         t = tup if names else "()"
         body = "def f(%s):\n    def inner():\n        return %s\n    g = lambda: %s\n    if probe_branch():\n        return inner()\n    return g()" % (plist, t, t)
